@@ -31,8 +31,9 @@ VEC_INDEX = ('<std::vec::Vec<T, A> as std::ops::Index<I>>::index', '<std::vec::V
 
 # std functions that panic on some inputs and that no rule models precisely: reaching one from a total entry
 # point is reported as undecided
+SPLIT_AT = ('core::slice::<impl [T]>::split_at', 'core::slice::<impl [T]>::split_at_mut')
 PANICKY_STD = (
-    'core::slice::<impl [T]>::split_at', 'core::slice::<impl [T]>::split_at_mut', 'core::slice::<impl [T]>::copy_from_slice',
+    'core::slice::<impl [T]>::copy_from_slice',
     'core::slice::<impl [T]>::clone_from_slice', 'core::slice::<impl [T]>::chunks', 'core::slice::<impl [T]>::chunks_exact',
     'core::slice::<impl [T]>::windows', 'core::slice::<impl [T]>::swap', 'core::slice::<impl [T]>::rotate_left',
     'core::slice::<impl [T]>::rotate_right', 'core::slice::<impl [T]>::first_chunk', 'core::slice::<impl [T]>::split_first_chunk',
